@@ -15,7 +15,7 @@ def debPc : Pc → Bool
   | _ => false
 
 def isJoinW : Pc → Bool
-  | .stJoinW _ => true
+  | .stJoinW _ _ => true
   | _ => false
 
 /-- kind and pc of thread `j` -/
@@ -348,7 +348,7 @@ theorem watcherLoop_deb {s : State} {i : Nat} {k : Kind} (pid : Nat) (c : DCtx s
     · exact c.setPc_close _ (nd _) (fun h => by cases h)
     · exact c.setPc_close _ (nd _) (fun h => by cases h)
 
-def withWatcher (s1 : State) (pid : Nat) : State := { s1 with threads := s1.threads ++ [{ kind := .watcher pid, pc := .begin }], watcher := some s1.threads.length }
+def withWatcher (s1 : State) (pid : Nat) : State := { s1 with threads := s1.threads ++ [{ kind := .watcher pid, pc := .begin }], watcher := some s1.threads.length, watchers := s1.watchers.filter (fun x => !s1.isDone x) ++ [s1.threads.length] }
 def withDeb (s1 : State) (d : Nat) : State := { s1 with threads := s1.threads ++ [{ kind := .deb, pc := .begin }], debTid := some d }
 def preSpawn (s : State) : State := { s with procs := s.procs ++ [{ start := s.clock, dies := (s.lifetimes.head?.join).map (s.clock + ·), killedAt := none }], lifetimes := s.lifetimes.tail, process := some s.procs.length }
 
@@ -590,12 +590,14 @@ theorem stepT_deb {s : State} {i : Nat} {t : Thread} (inv : Inv s) (h : Deb s) (
     · exact c.setPc_close _ (nd hk _) (fun _ => ⟨hk, hod⟩)
     · exact stopFinish_deb c hk hod
   · -- stJoinW
-    next w hb =>
+    next w rest hb =>
     have hk := notDeb (by rw [hb]; rfl)
     have hod : OthersDone s (some i) := by
       intro j k' pc hj hkp hd
       exact h.gone (Or.inl ⟨i, t.kind, t.pc, by simp, hme, by rw [hb]; rfl⟩) j k' pc (by simp) hkp hd
-    exact stopFinish_deb c hk hod
+    split
+    · exact c.setPc_close _ (nd hk _) (fun _ => ⟨hk, hod⟩)
+    · exact stopFinish_deb c hk hod
   · -- wWait
     next hb =>
     have hk := notDeb (by rw [hb]; rfl)
